@@ -288,7 +288,7 @@ pub fn run() -> i32 {
     // (d) needs_rehash
     let mut st = Stats::new();
     // multi-digit costs and costs that are decimal prefixes of one another (1/10/12/100, 8/80/81/800)
-    let grid: Vec<(u64, usize)> = [1u64, 2, 3, 4, 10, 12, 21, 100].iter().flat_map(|o| [8192usize, 9216, 16384, 65536, 80 * 1024, 81 * 1024, 800 * 1024, 1024 * 1024].iter().map(move |m| (*o, *m))).collect();
+    let grid: Vec<(u64, usize)> = [1u64, 2, 3, 4, 10, 12, 21, 100].iter().flat_map(|o| [8192usize, 8193, 9215, 9216, 16384, 65536, 65537, 80 * 1024, 81 * 1024, 800 * 1024, 1024 * 1024, 1024 * 1024 + 1023].iter().map(move |m| (*o, *m))).collect();
     for &(o1, m1) in &grid {
         let mut strings: Vec<(String, &str)> = vec![];
         if let Some(s) = sodium::pwhash_str(b"pw", o1, m1) {
